@@ -11,7 +11,9 @@ PROP = dict(
     open_statements=[
         "ldc_contract_padding_is_zero (Mem/ReadModel.v): 'LDC modes 0/1 leave zeros between $rC and the word-padded length' is REFUTED "
         "(C36_ldc_strict_padding_refuted): the padding holds the value's following bytes when $rC % 8 != 0 and the value continues; the "
-        "implementation behaves the same (oracle class ldc-mode{0,1}-unaligned-length-padding-holds-following-value-bytes-not-zeros). "
+        "implementation behaves the same: KNOWN FINDING recorded in known_findings.json under the oracle classes "
+        "ldc-mode0-unaligned-length-padding-holds-following-value-bytes-not-zeros and ldc-mode1-unaligned-length-padding-holds-following-value-bytes-not-zeros, "
+        "whose witnesses are replayed on every run (the check prints KNOWN-FINDING and exits 0). "
         "Proved instead: region = value[off .. off+padded] ++ zeros (C36_ldc_loaded_region) and zero padding when the value ends (C36_padding_zero_when_value_ends)",
         "update_code_size (the $fp->codesize bookkeeping of LDC) is modelled and tied by correspondence; the LDC theorems expose it as the last step "
         "without characterising its bytes",
@@ -47,7 +49,7 @@ PROP = dict(
                 "else changed (stated on the C23 memory refinement), with the register effects of LDC; the model is tied to the Rust code by a differential "
                 "run through the real StorageRead impls and a real Interpreter on every check"),
     level_note=("Trusted: Coq kernel; hand-written L1 models tied by correspondence testing (testing, not proof); harness. The frame code-size "
-                "update is covered by correspondence only. The strict reading 'zero padding after $rC bytes' is refuted for LDC modes 0/1 (finding)."),
+                "update is covered by correspondence only. The strict reading 'zero padding after $rC bytes' is refuted for LDC modes 0/1 (known finding, reported on every run)."),
     technique="Coq proof (list lemmas firstn/skipn/repeat + C23 refinement) + differential model/impl run + slice-arithmetic oracle",
     design_ref="6/C36",
     quick_shards=8,
